@@ -49,7 +49,7 @@ MANIFEST = {
                  "source-to-AST translation proved equivalent to the models; model tied by regenerated tables and a differential rig",
     "design_ref": "5/C10",
 }
-MODULES = ["PrimaiteModel.Props.C10", "PrimaiteModel.Props.C10Calc", "PrimaiteModel.Props.C10Total"]
+MODULES = ["PrimaiteModel.Props.C10", "PrimaiteModel.Props.C10Calc", "PrimaiteModel.Props.C10Total", "PrimaiteModel.Props.C10Float"]
 EXE = "drv_c10"
 
 
